@@ -73,12 +73,12 @@ func hostTemplate() (consensus.State, *chain.Keyring) {
 }
 
 type slice struct {
-	name        string
-	cfg         string
-	o           judgeOpts
-	thin        bool
-	cases       map[string][]*mcase
-	tlcWall     time.Duration
+	name    string
+	cfg     string
+	o       judgeOpts
+	thin    bool
+	cases   map[string][]*mcase
+	tlcWall time.Duration
 }
 
 // genCases runs TLC on one configuration of Membership.tla: the invariants (MemberSound among them) are
@@ -327,13 +327,13 @@ func replay(c *vlib.Ctx) {
 	var f struct {
 		Key  string `json:"key"`
 		Case struct {
-			Door        string                      `json:"door"`
-			Kind        string                      `json:"kind"`
-			Base        string                      `json:"base"`
-			Mutation    string                      `json:"mutation"`
-			Spent       bool                        `json:"spent"`
-			Expected    bool                        `json:"expected"`
-			Element     json.RawMessage             `json:"element"`
+			Door        string                       `json:"door"`
+			Kind        string                       `json:"kind"`
+			Base        string                       `json:"base"`
+			Mutation    string                       `json:"mutation"`
+			Spent       bool                         `json:"spent"`
+			Expected    bool                         `json:"expected"`
+			Element     json.RawMessage              `json:"element"`
 			Accumulator consensus.ElementAccumulator `json:"accumulator"`
 		} `json:"case"`
 	}
